@@ -2,8 +2,11 @@
 C09: round-robin fairness.  While the pool composition is unchanged, the j-th BIND pick is assigned
 slot `rrSlot j n` (Spec/Pool.lean; the correspondence check ties this formula to the code on every
 run, monitor `rr_assign`).  Here: any window of n·k consecutive BIND picks puts exactly k on each of
-the n slots, as long as the uint32 cursor does not wrap inside the window; at the wrap the claim
-fails when n does not divide 2^32 (known limitation K1, witness below).
+the n slots, as long as the cursor does not wrap inside the window.  The cursor is 64 bits wide since
+F32 (per-run fact `Ties.rr_cursor_width`), so the hypothesis `m + n·k ≤ 2^64` excludes no execution
+that can exist (2^64 BIND picks: 584 years at one per nanosecond); with the 32-bit cursor the code had
+before, the wrap came after 2^32 picks — about 50 days at 1000 session creations per second — and
+broke the cycle for every n that is not a power of two (was K1; witness of the arithmetic below).
 -/
 import GcpVerif.Spec.Pool
 import GcpVerif.Model.Pool
@@ -70,15 +73,15 @@ theorem rr_fair_nowrap (n k a i : Nat) (hi : i < n) :
       simp [Function.comp, Nat.add_assoc]
     rw [he, window_hits_once n (a + n * k) i hi]
 
-/-- the cursor starts at 2^32-1, so within the first 2^32 BIND picks the j-th one gets slot (j-1) mod n -/
-theorem rrSlot_early (j n : Nat) (h1 : 1 ≤ j) (h2 : j ≤ 2 ^ 32) : rrSlot j n = (j - 1) % n := by
+/-- the cursor starts at 2^64-1, so within the first 2^64 BIND picks the j-th one gets slot (j-1) mod n -/
+theorem rrSlot_early (j n : Nat) (h1 : 1 ≤ j) (h2 : j ≤ 2 ^ 64) : rrSlot j n = (j - 1) % n := by
   unfold rrSlot
-  have : (2 ^ 32 - 1 + j) % 2 ^ 32 = j - 1 := by omega
+  have : (2 ^ 64 - 1 + j) % 2 ^ 64 = j - 1 := by omega
   rw [this]
 
 /-- **C09** any n·k consecutive BIND picks over an unchanged n-slot pool (picks m+1 … m+n·k, all
-    within the first 2^32 picks) put exactly k on each slot, independent of load -/
-theorem rr_fair (n k m i : Nat) (hi : i < n) (hw : m + n * k ≤ 2 ^ 32) :
+    within the first 2^64 picks) put exactly k on each slot, independent of load -/
+theorem rr_fair (n k m i : Nat) (hi : i < n) (hw : m + n * k ≤ 2 ^ 64) :
     (List.range (n * k)).countP (fun t => rrSlot (m + 1 + t) n == i) = k := by
   have he : (List.range (n * k)).countP (fun t => rrSlot (m + 1 + t) n == i) =
       (List.range (n * k)).countP (fun t => (m + t) % n == i) := by
@@ -92,10 +95,10 @@ theorem rr_fair (n k m i : Nat) (hi : i < n) (hw : m + n * k ≤ 2 ^ 32) :
 
 /-- the cursor after j round-robin BIND picks -/
 def cursorAfter : Nat → Nat
-  | 0 => 2 ^ 32 - 1
-  | j + 1 => (cursorAfter j + 1) % 2 ^ 32
+  | 0 => 2 ^ 64 - 1
+  | j + 1 => (cursorAfter j + 1) % 2 ^ 64
 
-theorem rr_cursor (j : Nat) : cursorAfter j = (2 ^ 32 - 1 + j) % 2 ^ 32 := by
+theorem rr_cursor (j : Nat) : cursorAfter j = (2 ^ 64 - 1 + j) % 2 ^ 64 := by
   induction j with
   | zero => rfl
   | succ j ih =>
@@ -106,18 +109,18 @@ theorem rr_cursor (j : Nat) : cursorAfter j = (2 ^ 32 - 1 + j) % 2 ^ 32 := by
 /-- a round-robin BIND pick advances the cursor by one and is assigned (placed on, or made to wait
     for) slot `cursor mod n`; with `rr_cursor` the j-th such pick gets `rrSlot j n` -/
 theorem pickRR_assigns (s : St) (call : Nat) (loc : Loc) (ctx : CtxKind) (dl : Option Int) (hne : s.refs ≠ []) :
-    (pickRR s call loc ctx dl).1.rr = (s.rr + 1) % 2 ^ 32 ∧
-    ((∃ w, (pickRR s call loc ctx dl).1.waiters = s.waiters ++ [w] ∧ w.slot = (s.rr + 1) % 2 ^ 32 % s.refs.length ∧ w.id = call) ∨
-     (∃ c, (pickRR s call loc ctx dl).1.calls = s.calls ++ [c] ∧ c.slot = (s.rr + 1) % 2 ^ 32 % s.refs.length ∧ c.id = call)) := by
+    (pickRR s call loc ctx dl).1.rr = (s.rr + 1) % 2 ^ 64 ∧
+    ((∃ w, (pickRR s call loc ctx dl).1.waiters = s.waiters ++ [w] ∧ w.slot = (s.rr + 1) % 2 ^ 64 % s.refs.length ∧ w.id = call) ∨
+     (∃ c, (pickRR s call loc ctx dl).1.calls = s.calls ++ [c] ∧ c.slot = (s.rr + 1) % 2 ^ 64 % s.refs.length ∧ c.id = call)) := by
   unfold pickRR
   have he : s.refs.isEmpty = false := by cases hr : s.refs with | nil => exact absurd hr hne | cons _ _ => rfl
   simp only [he, Bool.false_eq_true, ↓reduceIte]
   split
   · rename_i hready
     -- the slot is ready, hence exists: the call is placed there
-    have hok : ∃ r, getRef { s with rr := (s.rr + 1) % 2 ^ 32 } ((s.rr + 1) % 2 ^ 32 % s.refs.length) = some r := by
+    have hok : ∃ r, getRef { s with rr := (s.rr + 1) % 2 ^ 64 } ((s.rr + 1) % 2 ^ 64 % s.refs.length) = some r := by
       unfold slotReady at hready
-      cases hg : getRef { s with rr := (s.rr + 1) % 2 ^ 32 } ((s.rr + 1) % 2 ^ 32 % s.refs.length) with
+      cases hg : getRef { s with rr := (s.rr + 1) % 2 ^ 64 } ((s.rr + 1) % 2 ^ 64 % s.refs.length) with
       | none => rw [hg] at hready; cases hready
       | some r => exact ⟨r, rfl⟩
     obtain ⟨r, hr⟩ := hok
@@ -126,9 +129,10 @@ theorem pickRR_assigns (s : St) (call : Nat) (loc : Loc) (ctx : CtxKind) (dl : O
     exact ⟨rfl, Or.inr ⟨_, rfl, rfl, rfl⟩⟩
   · exact ⟨rfl, Or.inl ⟨_, rfl, rfl, rfl⟩⟩
 
-/-- known limitation K1 (not reachable through the API: it takes 2^32 BIND picks): when the uint32
-    cursor wraps and n does not divide 2^32, two consecutive picks land on the same slot -/
-theorem rr_unfair_at_wrap : rrSlot (2 ^ 32) 3 = 0 ∧ rrSlot (2 ^ 32 + 1) 3 = 0 ∧ rrSlot (2 ^ 32 - 1) 3 = 2 := by
+/-- the arithmetic of a wrap (not reachable: it takes 2^64 BIND picks; with the 32-bit cursor before F32
+    it took 2^32): when the cursor wraps and n does not divide the modulus, two consecutive picks land
+    on the same slot -/
+theorem rr_unfair_at_wrap : rrSlot (2 ^ 64) 3 = 0 ∧ rrSlot (2 ^ 64 + 1) 3 = 0 ∧ rrSlot (2 ^ 64 - 1) 3 = 2 := by
   decide
 
 /-- non-vacuity: 3 slots, picks 5 … 10 (two rounds): slot 1 is hit twice -/
